@@ -30,8 +30,8 @@ ASSUMPTIONS = [
     "the reference (getattr/getitem/call, str/repr/ascii, format()) is used only to scope cases and to recognise the "
     "shape of already staged defects; the verdict compares the three real outputs with each other",
 ]
-MIN = {"quick": {"evaluations": 60000, "nontrivial": 20000, "outcomes": 4},
-       "thorough": {"evaluations": 300000, "nontrivial": 100000, "outcomes": 4}}
+MIN = {"quick": {"evaluations": 80000, "nontrivial": 64000, "outcomes": 4},
+       "thorough": {"evaluations": 550000, "nontrivial": 118000, "outcomes": 4}}
 
 
 class Obj:
